@@ -983,7 +983,7 @@ func (g *Gen) RandomVal(depth int) *Val {
 		return l
 	}
 	n := g.R.Intn(4)
-	shapes := [][2]any{{"any", true}, {"string", true}, {"int64", true}, {"string", false}, {"other", true}}
+	shapes := [][2]any{{"any", true}, {"string", true}, {"int64", true}, {"string", false}, {"other", true}, {"nstr", true}}
 	sh := shapes[g.R.Intn(len(shapes))]
 	m := &Val{Kind: "m", MK: sh[0].(string), MVA: sh[1].(bool)}
 	seen := map[string]bool{}
@@ -996,6 +996,8 @@ func (g *Gen) RandomVal(depth int) *Val {
 			k = Int("int64", int64(g.R.Intn(6)))
 		case "other":
 			k = Bool(g.p(0.5))
+		case "nstr":
+			k = Named(Str(g.pick("a", "b", "c", "_type", "kind", "5")))
 		default:
 			switch g.R.Intn(6) {
 			case 0:
